@@ -187,7 +187,7 @@ class RunScenario:
             self.argmap_dir[p] = amdir
             files = {}
             if with_argmaps:
-                for name in ["base", "ci", "dev"]:
+                for name in ["base", "ci", "dev.linux"]:     # an argmap name may contain dots: the file is <name>.json
                     if rng.chance(1, 2):
                         content = {}
                         for c in self.all_commands:
@@ -214,7 +214,7 @@ class RunScenario:
         self.argmaps = []
         if with_argmaps:
             for _ in range(rng.below(3)):
-                self.argmaps.append(rng.pick(["ci", "dev", "missing"]))
+                self.argmaps.append(rng.pick(["ci", "dev.linux", "missing"]))
         self.args = []
         if with_argmaps and rng.chance(1, 4):
             self.args = [a for a in (rng.pick(ODD_ARGS) for _ in range(rng.range(1, 3))) if not a.startswith("-")]
